@@ -112,12 +112,24 @@ static void check_line(int which, int client, const char *word, unsigned restlen
 #endif
 }
 
+#ifdef LONG
+/* over-long argument: only what the truncation must guarantee - one text, one newline, one
+ * flush, exactly sizeof(msg)-1 bytes, and CBMC's bounds checks on msg[] inside iauth_send */
+#define FMT_CASE(N, CLIENT, FMT, WORD, REST, ...)                                            \
+    if (which == N) {                                                                        \
+        iauth_send(CLIENT ? &rq : NULL, FMT, ##__VA_ARGS__);                                 \
+        VP_ASSERT(cap_puts == 1 && cap_nl == 1 && cap_flush == 1 && cap_other == 0, "one message = one text, one newline, one flush"); \
+        VP_ASSERT(cap_len == 1023, "an over-long message is truncated to the formatter's buffer"); \
+        VP_ASSERT(cap[0] == WORD[0], "the truncated line still starts with its command letter"); \
+    }
+#else
 #define FMT_CASE(N, CLIENT, FMT, WORD, REST, ...)                                            \
     if (which == N) {                                                                        \
         unsigned rl = (unsigned)snprintf(rest, sizeof(rest), REST "%s", ##__VA_ARGS__, "");  \
         iauth_send(CLIENT ? &rq : NULL, FMT, ##__VA_ARGS__);                                 \
         check_line(N, CLIENT, WORD, rl < sizeof(rest) ? rl : sizeof(rest) - 1);              \
     }
+#endif
 
 void harness(void)
 {
